@@ -457,3 +457,22 @@ UVL = Profile(uvl_names(), single=("mandatory", "optional", "card1", "star1"),
               group=("alternative", "or", "mutex", "card", "star"), layout="free",
               ftypes=("BOOLEAN", "BOOLEAN", "BOOLEAN", "INTEGER", "REAL", "STRING"), fcards=True, abstract=True,
               attrs=_uvl_attrs, ctc_max=4, ctc_expr=_uvl_ctc)
+
+
+# ------------------------------------------------------------------ FaMa XML (any cardinalities, requires/excludes only)
+def _fama_ctc(draw, names, feats):
+    a, b = draw(st.sampled_from(names)), draw(st.sampled_from(names))
+    return [draw(st.sampled_from(["REQUIRES", "EXCLUDES"])), ["T", a], ["T", b]]
+
+
+FAMA = Profile(xml_names(), single=("mandatory", "optional", "card1"), group=("alternative", "or", "mutex", "card"),
+               layout="free", abstract=False, ctc_max=4, ctc_expr=_fama_ctc, ctc_names=lambda draw, j: f"CTC-{j}")
+
+
+def _glencoe_ctc(draw, names, feats):
+    return draw(expr_of_depth(names, logic.LOGICAL, draw(st.integers(0, 3))))
+
+
+GLENCOE_3P = Profile(unicode_names(), single=("mandatory", "optional"), group=("alternative", "or", "mutex", "card"),
+                     layout="one_group", group_plus_mandatory=True, abstract=False, ctc_max=4,
+                     ctc_names=_ctc_names_distinct)
